@@ -25,3 +25,9 @@ Proof. intros p Hw Hs. exists (frag_spec p). split; [apply to_frames_spec; assum
 
 Example C02_nonvacuous : small (mkP true 65535 (repeat 7 100)) /\ wf_packet (mkP true 65535 (repeat 7 100)) = true.
 Proof. split; [unfold small; cbn; lia|reflexivity]. Qed.
+
+(* the extracted checker accepts the model's observation (frames left after every frame, early-build probes, rebuilt packet, on the
+   direct, CAN and USART paths) of every well-formed packet of up to 4096 frames *)
+Require Import RP.Glue.Wire RP.Glue.StreamPacket RP.Lemmas.GlueLemmas.
+Theorem C02_checker_accepts_model : forall p, wf_packet p = true -> small p -> ok_C02 (show_packet p) (run_REA (show_packet p)) = [].
+Proof. exact ok_C02_accepts_model. Qed.
